@@ -80,6 +80,13 @@ package desync
 //@   pure
 //@   ensures err == nil ==> bytes(r0) == convPlain(s, bytes(in))
 
+//@ spec func convStored(cv Converters, b Bytes) Bytes
+//# the storage form obtained by applying the converter layers forwards (uninterpreted function)
+//@ func (s Converters) toStorage
+//@   trusted
+//@   pure
+//@   ensures err == nil ==> bytes(r0) == convStored(s, bytes(in))
+
 //@ func (c *Chunk) Data
 //@   prop C03
 //@   modifies c.data
@@ -840,3 +847,168 @@ package desync
 //@ lemma @C04 tableBytesRoundTrip: forall w map[int]int, ids map[int]ChunkID, p int, a []FormatTableItem, b []FormatTableItem :: \
 //@     tableAt(w, ids, p, a) && (forall k int :: 0 <= k && k < len(a) ==> a[k].Offset != 0) && tableReadAt(w, ids, p, b) ==> \
 //@     len(a) == len(b) && forall k int :: 0 <= k && k < len(a) ==> a[k].Offset == b[k].Offset && a[k].Chunk == b[k].Chunk
+
+// ---------------------------------------------------------------------------- C20 / C16 / C08 / C03: the local store
+
+//@ spec func hexOf(id ChunkID) string
+//@ spec func idOfHex(s string) ChunkID
+//@ axiom hexOfIs64: forall id ChunkID :: isHex64(hexOf(id)) && idOfHex(hexOf(id)) == id
+
+//@ func (c *ChunkID) String
+//@   trusted
+//@   pure
+//@   ensures r0 == hexOf(*c)
+
+//@ func ChunkIDFromString
+//@   trusted
+//@   pure
+//@   ensures r1 == nil <==> isHex64(id)
+//@   ensures r1 == nil ==> r0 == idOfHex(id)
+
+//# casync layout: <base>/<first four hex digits>/<64 hex digits><".cacnk" | "">
+//@ spec func extOf(unc bool) string = ite(unc, "", ".cacnk")
+//@ spec func chunkDir(base string, id ChunkID) string = pjoin(base, hexOf(id)[0:4])
+//@ spec func chunkPath(base string, id ChunkID, unc bool) string = pjoin(chunkDir(base, id), hexOf(id)) + extOf(unc)
+
+//@ func (s LocalStore) nameFromID
+//@   prop C20
+//@   pure
+//@   ensures dir == chunkDir(s.Base, id) && name == chunkPath(s.Base, id, s.Opt.Uncompressed)
+
+//@ ghost var $wrote bool
+//@ ghost var $removed bool
+//@ ghost var $rmTmp bool
+
+//@ func (s LocalStore) GetChunk
+//@   prop C20 C03
+//@   safety none
+//# only the file of this format is read, and the chunk goes through the verifying constructor
+//# with the requested id and this store's own converters and skip flag
+//@   oncall ReadFile: requires $arg0 == chunkPath(s.Base, id, s.Opt.Uncompressed)
+//@   oncall NewChunkFromStorage: requires $arg0 == id && $arg2 == s.converters && $arg3 == s.Opt.SkipVerify
+//@   ensures @C03 err == nil ==> r0 != nil && r0.idCalculated && r0.id == id && (H(plain(r0)) == id || s.Opt.SkipVerify)
+
+//@ func (s LocalStore) HasChunk
+//@   prop C20
+//@   safety none
+//@   oncall Stat: requires $arg0 == chunkPath(s.Base, id, s.Opt.Uncompressed)
+
+//@ func (s LocalStore) GetChunkSize
+//@   prop C20
+//@   safety none
+//@   oncall Stat: requires $arg0 == chunkPath(s.Base, id, s.Opt.Uncompressed)
+
+//@ func (s LocalStore) RemoveChunk
+//@   prop C20 C16
+//@   safety none
+//@   oncall Stat: requires $arg0 == chunkPath(s.Base, id, s.Opt.Uncompressed)
+//@   oncall Remove: requires $arg0 == chunkPath(s.Base, id, s.Opt.Uncompressed)
+
+//@ func (s LocalStore) StoreChunk
+//@   prop C20 C08
+//@   safety none
+//@   requires hasPayload(chunk)
+//@   ghost@entry $wrote = false
+//@   ghost@after:Write $wrote = ($r1 == nil)
+//# every effect before the final rename is on the directory or on the temporary file, whose name can
+//# never be taken for a chunk; the chunk name appears only as the target of the rename of a completely
+//# written temporary file (C08), and it is this store's format's name for the chunk's own id (C20)
+//@   oncall MkdirAll: requires $arg0 == chunkDir(s.Base, chunk.id)
+//@   oncall NewMode: requires $arg0 == chunkDir(s.Base, chunk.id) && $arg1 == ".tmp-cacnk"
+//@   oncall Write: requires $recv == tmp && $arg0 == b
+//@   oncall Remove: requires $arg0 == fname(tmp)
+//@   oncall Rename: requires $wrote && $arg0 == fname(tmp) && $arg1 == chunkPath(s.Base, chunk.id, s.Opt.Uncompressed)
+//@   oncall toStorage: requires $recv == s.converters
+//@   assert@after:NewMode $r1 == nil ==> !isHex64(pbase(fname($r0))) && !isHex64(trimSuffix(pbase(fname($r0)), ".cacnk"))
+
+//# a file belongs to this store's format iff its path ends in the format's extension and the rest of
+//# its base name is a 64-digit hex ID (this is the filter the property statement describes)
+//@ spec func ownFile(path string, unc bool) bool = hasSuffix(path, extOf(unc)) && isHex64(trimSuffix(pbase(path), extOf(unc)))
+//@ spec func idOfFile(path string, unc bool) ChunkID = idOfHex(trimSuffix(pbase(path), extOf(unc)))
+
+//@ func (s LocalStore) Prune
+//@   prop C16 C20 C08
+//@   safety none
+//@   lit 1: ghost@entry $removed = false
+//@   lit 1: ghost@entry $rmTmp = false
+//@   lit 1: ghost@entry $sawDone = false
+//@   lit 1: ghost@recv:ctx.Done() $sawDone = true
+//@   lit 1: ghost@after:RemoveChunk $removed = true
+//@   lit 1: ghost@after:Remove $rmTmp = true
+//# a chunk is removed only if it is a file of this store's own format, parses to an ID that is not in the keep-set,
+//# and is not a temp file; only abandoned temp files are removed directly
+//@   lit 1: oncall RemoveChunk: requires !$sawDone && !isDirOf(info) && ownFile(path, s.Opt.Uncompressed) && $arg0 == idOfFile(path, s.Opt.Uncompressed) && !has(ids, $arg0) && !hasPrefix(pbase(path), ".tmp-cacnk")
+//@   lit 1: oncall Remove: requires !$sawDone && !isDirOf(info) && hasPrefix(pbase(path), ".tmp-cacnk") && $arg0 == path
+//# completeness: when the callback succeeds for a regular file, an unreferenced own-format chunk was removed and a temp file was removed
+//@   lit 1: ensures r0 == nil && !isDirOf(info) && !hasPrefix(pbase(path), ".tmp-cacnk") && ownFile(path, s.Opt.Uncompressed) && !has(ids, idOfFile(path, s.Opt.Uncompressed)) ==> $removed
+//@   lit 1: ensures r0 == nil && !isDirOf(info) && hasPrefix(pbase(path), ".tmp-cacnk") ==> $rmTmp && !$removed
+//@   lit 1: ensures $sawDone ==> is(r0, Interrupted) && !$removed && !$rmTmp
+
+//@ func (s LocalStore) Verify
+//@   prop C16 C20
+//@   safety none
+//# worker: a chunk is removed exactly when reading it through the verifying constructor says ChunkInvalid and repair is on
+//@   lit 1: ghost@after:GetChunk $last = $r1
+//@   lit 1: oncall RemoveChunk: requires repair && is($last, ChunkInvalid) && $arg0 == id
+//@   lit 1: oncall GetChunk: requires $arg0 == id
+//@   lit 1: ghost@entry $removed = false
+//@   lit 1: ghost@loop1.head $removed = false
+//@   lit 1: ghost@after:RemoveChunk $removed = true
+//@   lit 1: assert@loop1.iterend (repair && is($last, ChunkInvalid)) <==> $removed
+//# walk callback: only IDs of files of this store's own format are fed to the workers
+//@   lit 2: chan ids: true
+//@   lit 2: ghost@entry $sawDone = false
+//@   lit 2: ghost@recv:ctx.Done() $sawDone = true
+//@   lit 2: assert@send:ids !$sawDone && !isDirOf(info) && ownFile(path, s.Opt.Uncompressed) && v == idOfFile(path, s.Opt.Uncompressed)
+//@   lit 2: ensures $sawDone ==> is(r0, Interrupted)
+
+//# the two formats never share a file name (C20, C16): 64 hex digits versus 64 hex digits plus ".cacnk"
+//@ lemma @C20,C16 formatIsolation: forall b string, i ChunkID, j ChunkID :: chunkPath(b, i, true) != chunkPath(b, j, false)
+//@ lemma @C20,C16 otherFormatNotOwn: forall s string :: isHex64(s) ==> !isHex64(s + ".cacnk") && !(hasSuffix(s, ".cacnk") && isHex64(trimSuffix(s, ".cacnk")))
+
+//@ func (s *SFTPStore) Prune
+//@   prop C16
+//@   safety none
+//@   ghost@entry $removed = false
+//@   ghost@loop1.head $removed = false
+//@   ghost@after:RemoveChunk $removed = true
+//# same decision as the local store: an object is removed only if it is a file of the configured format whose
+//# name parses to an ID outside the keep-set; every such file that is visited is removed before the loop moves on
+//@   oncall RemoveChunk: requires ownFile(path, c.opt.Uncompressed) && $arg0 == idOfFile(path, c.opt.Uncompressed) && !has(ids, $arg0)
+//@   assert@loop1.iterend isDirOf(info) || ($removed <==> (ownFile(path, c.opt.Uncompressed) && !has(ids, idOfFile(path, c.opt.Uncompressed))))
+
+//@ spec func sftpName(c *SFTPStoreBase, id ChunkID) string = c.path + hexOf(id)[0:4] + "/" + hexOf(id) + extOf(c.opt.Uncompressed)
+
+//@ func (s *SFTPStoreBase) nameFromID
+//@   prop C16
+//@   pure
+//@   ensures r0 == sftpName(s, id)
+
+//@ func (s *SFTPStore) RemoveChunk
+//@   prop C16
+//@   safety none
+//@   pure
+//@   oncall Stat: requires $arg0 == sftpName(c, id)
+//@   oncall Remove: requires $arg0 == sftpName(c, id)
+
+//@ spec func s3Stem(s S3Store, name string) string = trimSuffix(trimPrefix(name, s.prefix), extOf(s.opt.Uncompressed))
+
+//@ func (s S3Store) idFromName
+//@   prop C16
+//@   pure
+//# an object key is taken for a chunk only if it carries this store's extension and, with prefix and extension
+//# removed, is "<dir>/<64 hex digits>" with the directory a prefix of the ID; the ID is parsed from that part
+//@   ensures r1 == nil ==> hasSuffix(name, extOf(s.opt.Uncompressed)) && splitCount(s3Stem(s, name), "/") == 2 && \
+//@       isHex64(splitPart(s3Stem(s, name), "/", 1)) && r0 == idOfHex(splitPart(s3Stem(s, name), "/", 1)) && \
+//@       hasPrefix(splitPart(s3Stem(s, name), "/", 1), splitPart(s3Stem(s, name), "/", 0))
+
+//@ func (s S3Store) Prune
+//@   prop C16
+//@   safety none
+//@   ghost@entry $last = nil
+//@   ghost@after:idFromName $last = $r1
+//@   ghost@loop1.head $removed = false
+//@   ghost@after:RemoveChunk $removed = true
+//@   oncall RemoveChunk: requires $last == nil && $arg0 == id && !has(ids, id)
+//@   oncall idFromName: requires $arg0 == object.Key
+//@   assert@loop1.iterend $removed <==> ($last == nil && !has(ids, id))
